@@ -286,7 +286,9 @@ def align_check(ctx, c, outs):
         scale = np.abs(target.data).max()
         d = np.abs(got - target.data).max() / scale
         ctx.dev("align_rel", d)
-        if d > 1e-7:
+        # the estimate passes through the thresholded matrix -> quaternion kernel (eps on squared quantities),
+        # whose accuracy is sqrt(eps) ~ 3e-5 rad by design: tau = 1e-4 for this path (DESIGN 2.3)
+        if d > 1e-4:
             return (f"{cls.__name__}.from_align_vectors(other, initial)*initial = {got.tolist()} but other = "
                     f"{target.data.tolist()} (exact rotation {q.tolist()} exists)")
     return None
